@@ -1,5 +1,14 @@
+//! vh-integ: checks that drive the bundled web-framework integrations.
+
+mod c35;
+
 fn main() {
     let id = std::env::args().nth(1).unwrap_or_default();
-    println!("INCONCLUSIVE property={id} reason=vh-integ has no check for this property yet");
-    std::process::exit(2);
+    match id.as_str() {
+        "C35" => c35::main(),
+        _ => {
+            println!("INCONCLUSIVE property={id} reason=vh-integ has no check for this property yet");
+            std::process::exit(2);
+        }
+    }
 }
